@@ -51,6 +51,12 @@ CHECKS = {
         "technique": "definiteness certificates decided by z3 (QF_LRA) over exact rational congruences; symbolic rigid-motion parameters",
         "design_ref": "DESIGN.md section 5 (C02), section 3.3",
     },
+    "C13": {
+        "text": "Bounded symbolic check: user-written bilinear / linear forms (grammar of products and contractions of u, v, grad, symmetric grad, trace, transpose, constant and position-dependent coefficients) are integrated by the real BiLinearForm/LinearForm machinery with SYMBOLIC coefficients (scalars, polynomial coefficient fields, diffusion tensor, Lame parameters, thickness, density) and compared entrywise with the built-in operator on the same quadrature or a per-Gauss-point oracle; Assemble is compared with the scatter-add; WeakForms simulations are compared with the Thermal / Elastic simulations' matrices - all as tolerance queries decided for every coefficient value.",
+        "note": "Trusted: Sym arithmetic, z3. Geometry concrete (small meshes, enumerated element types); forms enumerated from a fixed list (10 forms); vector-field value forms are outside (Field.__call__ is the scalar shape function).",
+        "technique": SMT + "; symbolic coefficients through the real form evaluation",
+        "design_ref": "DESIGN.md section 5 (C13)",
+    },
 }
 
 NOT_APPLICABLE = {
